@@ -29,6 +29,7 @@ type UpOp struct {
 	Op   string `json:"op"` // get set del
 	K    int    `json:"k"`
 	VLen int    `json:"vlen,omitempty"` // -1: empty value
+	Via  int    `json:"via,omitempty"`  // 0: Set/Delete; 1: SetEntry with a bogus Version; 2 (del): SetEntry{Tombstone:true} carrying a value
 }
 
 type Op struct {
@@ -37,6 +38,7 @@ type Op struct {
 	RW        bool   `json:"rw,omitempty"` // begin
 	K         int    `json:"k,omitempty"`  // key index
 	VLen      int    `json:"vlen,omitempty"`
+	Via       int    `json:"via,omitempty"`        // set/del: 0 Set/Delete, 1/2 through SetEntry (see UpOp)
 	N         int    `json:"n,omitempty"`          // fstep: number of gates to pass
 	Cfg       *Cfg   `json:"cfg,omitempty"`        // reopen: configuration of the next run
 	Ups       []UpOp `json:"ups,omitempty"`        // update / view closure body
@@ -103,7 +105,7 @@ func genUps(t *rapid.T, nkeys, maxN int, withGets bool) []UpOp {
 		if withGets {
 			kinds = append(kinds, "get", "get")
 		}
-		ups[i] = UpOp{Op: rapid.SampledFrom(kinds).Draw(t, "upop"), K: rapid.IntRange(0, nkeys-1).Draw(t, "k")}
+		ups[i] = UpOp{Op: rapid.SampledFrom(kinds).Draw(t, "upop"), K: rapid.IntRange(0, nkeys-1).Draw(t, "k"), Via: rapid.SampledFrom([]int{0, 0, 0, 1, 2}).Draw(t, "via")}
 		if ups[i].Op == "set" {
 			ups[i].VLen = genVLen(t)
 		}
@@ -210,6 +212,7 @@ func genProgram(t *rapid.T, pf Profile) Program {
 			o.T = rapid.IntRange(0, 7).Draw(t, "t")
 			o.K = rapid.IntRange(0, nk-1).Draw(t, "k")
 			o.VLen = genVLen(t)
+			o.Via = rapid.SampledFrom([]int{0, 0, 0, 1}).Draw(t, "via")
 		case "burst":
 			// many small commits in a row while whatever is open stays open: drives the
 			// committed-transaction list through its clean-up with old readers pending
